@@ -4,9 +4,13 @@ import (
 	"encoding/binary"
 	"encoding/json"
 	"fmt"
+	"net"
+	"os"
+	"path/filepath"
 	"runtime"
 	"runtime/debug"
 	"strings"
+	"syscall"
 	"time"
 
 	"github.com/elastic/go-libaudit/v2/rule"
@@ -461,6 +465,25 @@ func c13Run(c *mon.Ctx) {
 			c.Add("single_hostile_value_builds", 1)
 		})
 	}
+	// (a1) watches on special files: classifying the target must not open it (a named pipe without a writer
+	// blocks an open for ever; a device or socket may have side effects)
+	if !alloc {
+		fifo := filepath.Join(c.WorkDir, "watch-fifo")
+		os.Remove(fifo)
+		syscall.Mkfifo(fifo, 0o600)
+		sock := filepath.Join(c.WorkDir, "watch-sock")
+		os.Remove(sock)
+		if l, err := net.Listen("unix", sock); err == nil {
+			defer l.Close()
+		}
+		for i, p := range []string{fifo, sock, "/dev/null", "/dev/tty", "/dev/full", "/proc/self/fd/0", "/proc/self/mem", "/dev/stdin", fifo + "/x", "/dev/null/x"} {
+			for _, perms := range [][]rule.AccessType{nil, {rule.ReadAccessType}, {rule.WriteAccessType, rule.AttributeChangeAccessType}} {
+				e.build(i%c.Workers, &c13Rule{Form: "watch", Path: p, Perms: perms, Keys: []string{"k"}})
+				ev.Add(1)
+				c.Add("watches_on_special_files", 1)
+			}
+		}
+	}
 	// (a) hostile Rule values
 	nb := c.Pick(100_000, 3_000_000)
 	if alloc {
@@ -567,7 +590,7 @@ func c13Run(c *mon.Ctx) {
 func init() {
 	register(&mon.CheckSpec{
 		ID: "C13", Level: "exploration",
-		Rule: "cases = (a0) Build on otherwise valid single-filter rules - every field name x every list - whose value is a near-miss of a structured value syntax (bracketed type numbers, signs, base prefixes, errno names; punctuation soup); (a) Build on hostile Rule values (arbitrary strings for list/action/field/operator/value/keys, syscall numbers at and beyond every mask-word boundary incl. 2047..2112, 2^31, 2^32, 10^30, every number 2000..2199 alone, 0-200 filters, nil / typed-nil / foreign Rule implementations, hostile watch paths and access types); (b) ToCommandLine on valid wire images with EACH of the 260 header words replaced by boundary values {0,1,63,64,65,255,2^16,2^31-1,2^31,2^32-1,buflen+-1,...}, every truncation length, multi-word mutants, bit flips, random bytes, string-length wrap-around headers - inputs placed so they end at a PROT_NONE guard page; (c) flags.Parse (+Build of what it returns) on mutated real rule lines and random strings. Monitors: recovered panic, 30 s hang bound, guard-page fault, per-call allocation bound 64*len+1MiB measured in single-worker child processes under ulimit -v, and the post-condition that ToCommandLine succeeds only on structurally valid input. distinct_nontrivial = distinct corrupted wire images and distinct hostile lines.",
+		Rule: "cases = (a0) Build on otherwise valid single-filter rules - every field name x every list - whose value is a near-miss of a structured value syntax (bracketed type numbers, signs, base prefixes, errno names; punctuation soup); (a1) watches on a named pipe, a unix socket, devices and /proc files (Build must classify the target without opening it); (a) Build on hostile Rule values (arbitrary strings for list/action/field/operator/value/keys, syscall numbers at and beyond every mask-word boundary incl. 2047..2112, 2^31, 2^32, 10^30, every number 2000..2199 alone, 0-200 filters, nil / typed-nil / foreign Rule implementations, hostile watch paths and access types); (b) ToCommandLine on valid wire images with EACH of the 260 header words replaced by boundary values {0,1,63,64,65,255,2^16,2^31-1,2^31,2^32-1,buflen+-1,...}, every truncation length, multi-word mutants, bit flips, random bytes, string-length wrap-around headers - inputs placed so they end at a PROT_NONE guard page; (c) flags.Parse (+Build of what it returns) on mutated real rule lines and random strings. Monitors: recovered panic, 30 s hang bound, guard-page fault, per-call allocation bound 64*len+1MiB measured in single-worker child processes under ulimit -v, and the post-condition that ToCommandLine succeeds only on structurally valid input. distinct_nontrivial = distinct corrupted wire images and distinct hostile lines.",
 		Assumptions: []string{
 			"allocation is measured with runtime.MemStats.TotalAlloc around each call in processes that run one worker, so the delta belongs to the call",
 			"a read past the input is observed only when it crosses the end of the slice into the guard page (plus ASan in the thorough tier)",
